@@ -157,6 +157,12 @@ CASES = [
     ("hashes fields", {"type": "hashes_fields", "valid_hash_algos": ["MD5", "SHA1"], "field_prefix": "File", "drop_algo_prefix": False}, R({"sel": {"Hashes|contains": ["MD5=abc", "SHA1=def"]}}, "sel"), R({"s": [{"FileMD5": "abc"}, {"FileSHA1": "def"}]}, "s")),
     ("nested", {"type": "nest", "items": [{"type": "field_name_mapping", "mapping": {"f": "f2"}}, {"type": "field_name_prefix", "prefix": "p_"}]}, R(BASE), R({"sel": {"p_f2": "a", "p_g|contains": ["x", "y"]}, "kw": ["k1", "k2"]})),
     ("keyword to field", {"type": "field_name_mapping", "mapping": {None: "msg"}}, R({"kw": ["k1", "k*2"]}, "kw"), R({"kw": {"msg": ["*k1*", "*k*2*"]}}, "kw")),
+    ("keyword to field, escaped asterisks at the borders", {"type": "field_name_mapping", "mapping": {None: "msg"}}, R({"kw": ["rm /tmp/\\*", "\\*x", "*y", "z*", "a\\\\*"]}, "not kw"),
+     R({"kw": {"msg": ["*rm /tmp/\\**", "*\\*x*", "*y*", "*z*", "*a\\\\*"]}}, "not kw")),
+    ("hashes fields, explicit algorithm that is not valid is not re-typed by its length", {"type": "hashes_fields", "valid_hash_algos": ["MD5", "SHA256"], "field_prefix": "File", "drop_algo_prefix": False},
+     R({"sel": {"Hashes|contains": ["SHA256=" + "a" * 64, "IMPHASH=" + "b" * 32, "c" * 32, "SHA1=" + "d" * 40]}}, "sel"), R({"s": [{"FileSHA256": "a" * 64}, {"FileMD5": "c" * 32}]}, "s")),
+    ("hashes fields, pipe separator and wildcards", {"type": "hashes_fields", "valid_hash_algos": ["MD5", "SHA1"], "field_prefix": "h_", "drop_algo_prefix": False},
+     R({"sel": {"Hashes|contains": ["*md5|" + "a" * 32 + "*", "SHA1=" + "d" * 40]}}, "sel"), R({"s": [{"h_MD5": "a" * 32}, {"h_SHA1": "d" * 40}]}, "s")),
     # identity instances: a transformation configured not to match anything leaves every query unchanged
     ("identity: empty mapping", {"type": "field_name_mapping", "mapping": {}}, R(BASE, fields=["f"]), R(BASE, fields=["f"])),
     ("identity: regex matches nothing", {"type": "replace_string", "regex": "QQQ", "replacement": "zz"}, R({"sel": {"f": ["a\\\\*", "b\\*c", "d\\\\e"]}}, "sel"), R({"sel": {"f": ["a\\\\*", "b\\*c", "d\\\\e"]}}, "sel")),
